@@ -183,6 +183,12 @@ def invoke_fn(F, bi, st, t, fn, args, extra_first=None):
     res = E.analyse(fn, tuple(avs), F.depth + 1)
     if res is None:
         return None
+    cha_deprecated = fn in E.deprecated and t["callee"].get("resolved") is None if t is not None else False
+    # (a provided trait method instantiated at a deprecated type is that type's API: not charged)
+    if fn in E.docpanic and t is not None and not cha_deprecated and not any(x in E.docpanic for x in E.callstack):
+        # entering a documented panicker from code that is not one: its panic condition must be excluded here
+        F.oblige(bi, "doc-panic", "%s(%s)" % (fn, ",".join(F.d_op(a) for a in t["args"])), t["ln"], E.last_fails == 0,
+                 "the callee is documented to panic and %d obligation(s) below it are not discharged for these arguments" % E.last_fails)
     ret, eff = res
     # write effects on &mut parameters back to the caller's places
     for i, (av, ty) in enumerate(args):
@@ -225,9 +231,43 @@ def adt_of_av(F, av, ty, depth=0):
     return adt_of_ty(E, ty) if ty is not None else None
 
 
+# bounds on associated types that narrow class-hierarchy resolution (src/offset/mod.rs: `type Offset: Offset;` in trait TimeZone)
+ASSOC_BOUNDS = {"<Tz as offset::TimeZone>::Offset": "offset::Offset"}
+_implementors = {}
+
+
+def implementors(P, trait):
+    if trait not in _implementors:
+        _implementors[trait] = set(P.ty(i["self_ty"]).get("adt") for i in P.impls if i.get("trait") == trait)
+    return _implementors[trait]
+
+
+def assoc_bound_of(E, av, ty, depth=0):
+    """bound trait of an abstract value whose static type is (a reference to) a bounded associated type"""
+    if av is not None and av != BOT and av[0] == "t":
+        ty = av[1]
+    elif av is not None and av != BOT and av[0] == "r" and av[1][0] == "val" and depth < 3:
+        return assoc_bound_of(E, av[1][1], None, depth + 1)
+    n = 0
+    while ty is not None and n < 4:
+        t = E.ty(ty)
+        if t.get("k") in ("ref", "ptr"):
+            ty = t["inner"]
+            n += 1
+            continue
+        return ASSOC_BOUNDS.get(t["s"])
+    return None
+
+
 def compatible(F, fn, args):
     E = F.E
     m = F.P.fn(fn)["mir"]
+    if args:
+        b = assoc_bound_of(E, args[0][0], args[0][1])
+        if b is not None:
+            p = adt_of_ty(E, m["locals"][1])
+            if p is not None and p not in implementors(F.P, b):
+                return False
     for i, (av, ty) in enumerate(args):
         if i >= m["argc"]:
             break
